@@ -313,7 +313,7 @@ public:
 
     // XEP-0363: HTTP File Upload
     bool fileTooLarge = false;
-    qint64 maxFileSize;
+    qint64 maxFileSize = 0;
     QDateTime retryDate;
 };
 
